@@ -82,8 +82,9 @@ def run(ctx, res):
         return
     adt = sdes[0]
     d = D.impl_item(PARSER_TRAIT, adt, "parse")
-    chunk_parse = find(F, "SdesChunk::<'a>::parse")
-    item_parse = find(F, "SdesItem::<'a>::parse")
+    # the chunk and item sub-parsers: found by what they return (their names are private)
+    chunk_parse = D.by_signature(["&[u8]"], "Result<(sdes::SdesChunk<", "sdes::")
+    item_parse = D.by_signature(["&[u8]"], "Result<(sdes::SdesItem<", "sdes::")
     res.floor("chunk and item sub-parsers", len(chunk_parse) + len(item_parse), 2)
     n_item = n_chunk = 0
     # ------------------------------------------------------------------ item parser on its own
@@ -146,10 +147,10 @@ def run(ctx, res):
             chunk, used = tup.items[0], tup.items[1]
             n_chunk += 1
             # ssrc
-            ss = chunk.fields.get("ssrc")
+            ss = field_of(chunk, IntV, "ssrc")
             res.ob(isinstance(ss, IntV) and solver.entails(s.pc, flit(eq(ss.l, view_be(inp, 0, 4)))), "chunk-token", chunk_parse[0], "SdesChunk: ssrc is the BE32 at the chunk start", pc=s.pc)
             # items tile [4, t) exactly and consecutively
-            items = chunk.fields.get("items")
+            items = field_of(chunk, CollV, "items")
             tl = s.tiles.get(items.seq) if isinstance(items, CollV) else None
             has_items = isinstance(items, CollV) and bool(s.colls.get(items.seq))
             if has_items:
